@@ -583,8 +583,8 @@ func (f *family) pick(r *rand.Rand) *genetics.Genome { return f.members[r.Intn(l
 // stepRec applies one random operator; emits a case when the property is about that kind of operator
 func (o *opsGen) stepRec(f *family, stepNo int, mateProb float64, mutWeights []int, prop string) (opSpec, *genetics.Genome, *genetics.Genome, opOutcome, gsnap) {
 	r := o.r.Rng
-	emitMate := prop != "C05"
-	emitMut := prop != "C04"
+	emitMate := prop != "C05" && prop != "none"
+	emitMut := prop != "C04" && prop != "none"
 	if r.Intn(8) == 0 {
 		f.env.Innovs = nil // a new generation begins: the record of innovations is forgotten
 	}
